@@ -2356,14 +2356,20 @@ class LazyStackedTensorDict(TensorDictBase):
                             result.append(self.tensordicts[i][_idx])
                             result[-1] = result[-1].squeeze(cat_dim)
                 if not result:
-                    batch_size = _getitem_batch_size(self.batch_size, index)
+                    # batch_size is the batch size of the (absent) members: the indexed one without the stack dim
+                    batch_size = list(
+                        _getitem_batch_size(
+                            self.batch_size,
+                            convert_ellipsis_to_idx(index, self.batch_size),
+                        )
+                    )
+                    del batch_size[cat_dim]
                 else:
                     batch_size = None
                 return self._new_lazy_unsafe(
                     *result,
                     stack_dim=cat_dim,
                     device=self.device,
-                    names=self.names,
                     batch_size=batch_size,
                 )
             else:
